@@ -65,6 +65,7 @@ class ambient:
         AMB.on = False
         AMB.last = None
         net.SimSocket.fd_base = 10
+        net.SimSocket.recv_type = bytes
         try:
             ws().enableTrace(False)
         except Exception:  # noqa
